@@ -2,8 +2,11 @@
    canonical (derived) address for the identity its own content carries.  The processors identify their state accounts
    at USE sites by owner + type tag only (see rd_use_site_canonical_keys_refuted in Lemmas_RdGuards2.v); this file shows
    that in every world reachable without `OForge` that is enough.
-   Part 1 (this file): the invariant, the footprint of every primitive and every processor, transactions, histories.
-   Part 2 (Lemmas_Canon2.v): use-site corollaries, examples. *)
+   Contents: the invariant, the footprint of every primitive and every processor (22 RD + 6 passport + 3 mock swap),
+   instructions / transactions / histories, use-site corollaries, examples.  Index at the end of the file.
+   Why `typed_canonical` alone is inductive: typed data is written only by write_data / try_initialize (which demand
+   owner = executing program) and every such write names the address the data belongs to; the owner of an account changes
+   only in System create / allocate+assign, which reset the data to DEmpty first, and in `purge` (-> empty_acct). *)
 From DZ Require Import Base Keys Merkle BurnRate Shares Swap_Ring State World SwapDeq RD Passport Swap Exec
   Lemmas_Merkle Lemmas_RdGuards.
 
@@ -71,9 +74,12 @@ Lemma tc_hdr W W' : (forall k, hdr (get W' k) = hdr (get W k)) -> typed_canonica
 Proof. intros Hh HT k c Hc. apply HT. rewrite <- (canon_key_hdr _ _ (Hh k)). exact Hc. Qed.
 
 (* what the invariant says at a use site *)
-Lemma rd_acct_canonical W k c :
-  typed_canonical W -> owner (get W k) = KRd -> canon_key_of (get W k) = Some c -> c = k.
-Proof. intros HT _ Hc. apply HT. exact Hc. Qed.
+Lemma typed_canonical_at W k c : typed_canonical W -> canon_key_of (get W k) = Some c -> c = k.
+Proof. intros HT Hc. apply HT. exact Hc. Qed.
+(* the identity a typed account carries cannot differ between two worlds satisfying the invariant (same address) *)
+Lemma canon_identity_stable W W' k c c' :
+  typed_canonical W -> typed_canonical W' -> canon_key_of (get W k) = Some c -> canon_key_of (get W' k) = Some c' -> c = c'.
+Proof. intros HT HT' Hc Hc'. rewrite (HT _ _ Hc), (HT' _ _ Hc'). reflexivity. Qed.
 Lemma rd_config_canonical W k c : typed_canonical W -> rd_acct W k (DConfig c) -> k = KRdConfig.
 Proof. intros HT (Ho & Hd). symmetry. apply HT. unfold canon_key_of. rewrite Ho, Hd. reflexivity. Qed.
 Lemma rd_journal_canonical W k j : typed_canonical W -> rd_acct W k (DJournal j) -> k = KRdJournal.
@@ -106,6 +112,7 @@ Proof. intros HT Ho Hd. eapply rd_deposit_canonical; [exact HT|split; eassumptio
 Lemma rd_acct_canonical_contrib W k c :
   typed_canonical W -> owner (get W k) = KRd -> data (get W k) = DContrib c -> k = KRdContrib (cr_service c).
 Proof. intros HT Ho Hd. eapply rd_contrib_canonical; [exact HT|split; eassumption]. Qed.
+Definition rd_acct_canonical := rd_acct_canonical_dist.
 
 (* ------------------------------------------------------------------------------------------------------------------ *)
 (* 1. initial worlds                                                                                                  *)
@@ -336,3 +343,628 @@ Ltac tc_go H := repeat tc_step H; tc_final H.
 Lemma grow_and_fund_tc cx W dk d tail extra ms more W' :
   grow_and_fund cx W dk d tail extra ms more = Ok W' -> typed_canonical W -> dk = KRdDist (d_epoch d) -> typed_canonical W'.
 Proof. unfold grow_and_fund. intros H HT Hk. tc_go H. Qed.
+
+Lemma distribute_loop_tc cx recips : forall W ms remaining src auth pdas acc W' tot ms',
+  distribute_loop cx W ms recips remaining src auth pdas acc = Ok (W', tot, ms') -> typed_canonical W -> typed_canonical W'.
+Proof.
+  induction recips as [|[rk share] tl IH]; intros W ms remaining src auth pdas acc W' tot ms' H HT; cbn [distribute_loop] in H.
+  - injection H as <- _ _. exact HT.
+  - repeat tc_step H. eapply IH; eassumption.
+Qed.
+
+(* the DequeueFills CPI: the mock writes DFills onto an account it owns; scripted programs write nothing *)
+Lemma sw_dequeue_fills_tc cx W sol W' rep :
+  sw_dequeue_fills cx W sol = Ok (W', rep) -> typed_canonical W -> typed_canonical W'.
+Proof. unfold sw_dequeue_fills. intros H HT. repeat tc_step H. injection H as <- _. assumption. Qed.
+Lemma swap_dequeue_cpi_tc cx W swap cfg st fills jk sol pdas W' rep :
+  swap_dequeue_cpi cx W swap cfg st fills jk sol pdas = Ok (W', rep) -> typed_canonical W -> typed_canonical W'.
+Proof.
+  unfold swap_dequeue_cpi. intros H HT. tc_step H. destruct swap; try discriminate H.
+  - eapply sw_dequeue_fills_tc; eassumption.
+  - destruct (data (get W fills)) as [| | | | | | | | | | | |[r|]|]; injection H as <- _; exact HT.
+Qed.
+
+Ltac tc_comp E ::=
+  first
+  [ eapply grow_and_fund_tc in E; [|eassumption|tc_side]
+  | eapply distribute_loop_tc in E; [|eassumption]
+  | eapply swap_dequeue_cpi_tc in E; [|eassumption]
+  | eapply sw_dequeue_fills_tc in E; [|eassumption] ].
+
+(* ------------------------------------------------------------------------------------------------------------------ *)
+(* 4. every revenue-distribution processor keeps the invariant                                                        *)
+
+Lemma rd_initialize_program_tc cx W W' : rd_initialize_program cx W = Ok W' -> typed_canonical W -> typed_canonical W'.
+Proof. unfold rd_initialize_program. intros H HT. tc_go H. Qed.
+Lemma rd_set_admin_tc cx W k W' : rd_set_admin cx W k = Ok W' -> typed_canonical W -> typed_canonical W'.
+Proof. unfold rd_set_admin. intros H HT. tc_go H. Qed.
+Lemma rd_migrate_tc cx W W' : rd_migrate cx W = Ok W' -> typed_canonical W -> typed_canonical W'.
+Proof. unfold rd_migrate. intros H HT. tc_go H. Qed.
+Lemma rd_configure_program_tc cx W s W' : rd_configure_program cx W s = Ok W' -> typed_canonical W -> typed_canonical W'.
+Proof. unfold rd_configure_program. intros H HT. tc_go H. Qed.
+Lemma rd_initialize_journal_tc cx W W' : rd_initialize_journal cx W = Ok W' -> typed_canonical W -> typed_canonical W'.
+Proof. unfold rd_initialize_journal. intros H HT. tc_go H. Qed.
+Lemma rd_initialize_distribution_tc cx W W' :
+  rd_initialize_distribution cx W = Ok W' -> typed_canonical W -> typed_canonical W'.
+Proof. unfold rd_initialize_distribution. intros H HT. tc_go H. Qed.
+Lemma rd_configure_debt_tc cx W n debt root W' :
+  rd_configure_debt cx W n debt root = Ok W' -> typed_canonical W -> typed_canonical W'.
+Proof. unfold rd_configure_debt. intros H HT. tc_go H. Qed.
+Lemma rd_finalize_debt_tc cx W W' : rd_finalize_debt cx W = Ok W' -> typed_canonical W -> typed_canonical W'.
+Proof. unfold rd_finalize_debt. intros H HT. tc_go H. Qed.
+Lemma rd_configure_rewards_tc cx W n root W' :
+  rd_configure_rewards cx W n root = Ok W' -> typed_canonical W -> typed_canonical W'.
+Proof. unfold rd_configure_rewards. intros H HT. tc_go H. Qed.
+Lemma rd_finalize_rewards_tc cx W W' : rd_finalize_rewards cx W = Ok W' -> typed_canonical W -> typed_canonical W'.
+Proof. unfold rd_finalize_rewards. intros H HT. tc_go H. Qed.
+Lemma rd_distribute_rewards_tc cx W us ebr p W' :
+  rd_distribute_rewards cx W us ebr p = Ok W' -> typed_canonical W -> typed_canonical W'.
+Proof. unfold rd_distribute_rewards. intros H HT. tc_go H. Qed.
+Lemma rd_initialize_contributor_tc cx W svc W' :
+  rd_initialize_contributor cx W svc = Ok W' -> typed_canonical W -> typed_canonical W'.
+Proof. unfold rd_initialize_contributor. intros H HT. tc_go H. Qed.
+Lemma rd_set_rewards_manager_tc cx W k W' :
+  rd_set_rewards_manager cx W k = Ok W' -> typed_canonical W -> typed_canonical W'.
+Proof. unfold rd_set_rewards_manager. intros H HT. tc_go H. Qed.
+Lemma rd_configure_contributor_tc cx W s W' :
+  rd_configure_contributor cx W s = Ok W' -> typed_canonical W -> typed_canonical W'.
+Proof. unfold rd_configure_contributor. intros H HT. tc_go H. Qed.
+Lemma rd_verify_root_tc cx W kind p W' : rd_verify_root cx W kind p = Ok W' -> typed_canonical W -> typed_canonical W'.
+Proof. unfold rd_verify_root. intros H HT. tc_go H. Qed.
+Lemma rd_initialize_deposit_tc cx W node W' :
+  rd_initialize_deposit cx W node = Ok W' -> typed_canonical W -> typed_canonical W'.
+Proof. unfold rd_initialize_deposit. intros H HT. tc_go H. Qed.
+Lemma rd_pay_debt_tc cx W amount p W' : rd_pay_debt cx W amount p = Ok W' -> typed_canonical W -> typed_canonical W'.
+Proof. unfold rd_pay_debt. intros H HT. tc_go H. Qed.
+Lemma rd_enable_write_off_tc cx W W' : rd_enable_write_off cx W = Ok W' -> typed_canonical W -> typed_canonical W'.
+Proof. unfold rd_enable_write_off. intros H HT. tc_go H. Qed.
+Lemma rd_write_off_tc cx W amount p W' : rd_write_off cx W amount p = Ok W' -> typed_canonical W -> typed_canonical W'.
+Proof. unfold rd_write_off. intros H HT. tc_go H. Qed.
+Lemma rd_initialize_swap_destination_tc cx W W' :
+  rd_initialize_swap_destination cx W = Ok W' -> typed_canonical W -> typed_canonical W'.
+Proof. unfold rd_initialize_swap_destination. intros H HT. tc_go H. Qed.
+Lemma rd_sweep_tc cx W W' : rd_sweep cx W = Ok W' -> typed_canonical W -> typed_canonical W'.
+Proof. unfold rd_sweep. intros H HT. tc_go H. Qed.
+Lemma rd_withdraw_sol_tc cx W amount W' : rd_withdraw_sol cx W amount = Ok W' -> typed_canonical W -> typed_canonical W'.
+Proof. unfold rd_withdraw_sol. intros H HT. tc_go H. Qed.
+
+Theorem rd_process_tc cx W ix W' : rd_process cx W ix = Ok W' -> typed_canonical W -> typed_canonical W'.
+Proof.
+  destruct ix; cbn [rd_process].
+  - apply rd_initialize_program_tc.
+  - apply rd_migrate_tc.
+  - apply rd_set_admin_tc.
+  - apply rd_configure_program_tc.
+  - apply rd_initialize_journal_tc.
+  - apply rd_initialize_distribution_tc.
+  - apply rd_configure_debt_tc.
+  - apply rd_finalize_debt_tc.
+  - apply rd_configure_rewards_tc.
+  - apply rd_finalize_rewards_tc.
+  - apply rd_distribute_rewards_tc.
+  - apply rd_initialize_contributor_tc.
+  - apply rd_set_rewards_manager_tc.
+  - apply rd_configure_contributor_tc.
+  - apply rd_verify_root_tc.
+  - apply rd_initialize_deposit_tc.
+  - apply rd_pay_debt_tc.
+  - apply rd_enable_write_off_tc.
+  - apply rd_write_off_tc.
+  - apply rd_initialize_swap_destination_tc.
+  - apply rd_sweep_tc.
+  - apply rd_withdraw_sol_tc.
+Qed.
+
+(* ------------------------------------------------------------------------------------------------------------------ *)
+(* 5. passport and the mock swap program                                                                              *)
+
+Lemma pp_initialize_program_tc cx W W' : pp_initialize_program cx W = Ok W' -> typed_canonical W -> typed_canonical W'.
+Proof. unfold pp_initialize_program. intros H HT. tc_go H. Qed.
+Lemma pp_set_admin_tc cx W k W' : pp_set_admin cx W k = Ok W' -> typed_canonical W -> typed_canonical W'.
+Proof. unfold pp_set_admin. intros H HT. tc_go H. Qed.
+Lemma pp_configure_program_tc cx W s W' : pp_configure_program cx W s = Ok W' -> typed_canonical W -> typed_canonical W'.
+Proof. unfold pp_configure_program. intros H HT. tc_go H. Qed.
+Lemma pp_request_access_tc cx W m W' : pp_request_access cx W m = Ok W' -> typed_canonical W -> typed_canonical W'.
+Proof. unfold pp_request_access. intros H HT. tc_go H. Qed.
+Lemma pp_grant_access_tc cx W W' : pp_grant_access cx W = Ok W' -> typed_canonical W -> typed_canonical W'.
+Proof. unfold pp_grant_access. intros H HT. tc_go H. Qed.
+Lemma pp_deny_access_tc cx W W' : pp_deny_access cx W = Ok W' -> typed_canonical W -> typed_canonical W'.
+Proof. unfold pp_deny_access. intros H HT. tc_go H. Qed.
+Theorem pp_process_tc cx W ix W' : pp_process cx W ix = Ok W' -> typed_canonical W -> typed_canonical W'.
+Proof.
+  destruct ix; cbn [pp_process].
+  - apply pp_initialize_program_tc.
+  - apply pp_set_admin_tc.
+  - apply pp_configure_program_tc.
+  - apply pp_request_access_tc.
+  - apply pp_grant_access_tc.
+  - apply pp_deny_access_tc.
+Qed.
+
+Lemma withdraw_sol_cpi_tc cx W cfg auth jk dest sol sib W' :
+  withdraw_sol_cpi cx W cfg auth jk dest sol sib = Ok W' -> typed_canonical W -> typed_canonical W'.
+Proof. unfold withdraw_sol_cpi. intros H HT. tc_step H. eapply rd_withdraw_sol_tc; eassumption. Qed.
+Ltac tc_comp E ::=
+  first
+  [ eapply grow_and_fund_tc in E; [|eassumption|tc_side]
+  | eapply distribute_loop_tc in E; [|eassumption]
+  | eapply swap_dequeue_cpi_tc in E; [|eassumption]
+  | eapply sw_dequeue_fills_tc in E; [|eassumption]
+  | eapply withdraw_sol_cpi_tc in E; [|eassumption] ].
+
+Lemma sw_initialize_tc cx W W' : sw_initialize cx W = Ok W' -> typed_canonical W -> typed_canonical W'.
+Proof. unfold sw_initialize. intros H HT. tc_go H. Qed.
+Lemma sw_buy_sol_tc cx W z sol W' : sw_buy_sol cx W z sol = Ok W' -> typed_canonical W -> typed_canonical W'.
+Proof. unfold sw_buy_sol. intros H HT. tc_go H. Qed.
+Theorem sw_process_tc cx W ix W' : sw_process cx W ix = Ok W' -> typed_canonical W -> typed_canonical W'.
+Proof.
+  destruct ix; cbn [sw_process].
+  - apply sw_initialize_tc.
+  - apply sw_buy_sol_tc.
+  - intros H HT. tc_go H.
+Qed.
+
+(* ------------------------------------------------------------------------------------------------------------------ *)
+(* 6. instructions (top-level System / Token instructions and rogue CPI wrappers included), transactions              *)
+
+Theorem exec_data_tc d : forall prog ms h sib W W',
+  exec_data prog d ms h sib W = Ok W' -> typed_canonical W -> typed_canonical W'.
+Proof.
+  induction d as [i|i|i|amt|lam space o|amt|amt dec|amt|inner IH|z sol|]; intros prog ms h sib W W' H HT;
+    cbn [exec_data] in H; apply bind_ok in H as (W1 & E & H); apply bind_ok in H as (u & _ & H); injection H as <-.
+  - destruct prog; try discriminate E. eapply pp_process_tc; eassumption.
+  - destruct prog; try discriminate E. eapply rd_process_tc; eassumption.
+  - destruct prog; try discriminate E. eapply sw_process_tc; eassumption.
+  - destruct prog; try discriminate E. tc_step E. eapply sys_transfer_core_tc; eassumption.
+  - destruct prog; try discriminate E. tc_step E. eapply sys_create_account_core_tc; eassumption.
+  - destruct prog; try discriminate E. tc_step E. eapply tok_transfer_core_tc; eassumption.
+  - destruct prog; try discriminate E. tc_step E. eapply tok_transfer_core_tc; eassumption.
+  - destruct prog; try discriminate E. tc_step E. eapply tok_burn_core_tc; eassumption.
+  - destruct prog; try discriminate E. destruct ms as [|callee rest]; [discriminate E|].
+    tc_step E. eapply IH; eassumption.
+  - destruct prog; try discriminate E. tc_go E.
+  - destruct prog; injection E as <-; exact HT.
+Qed.
+
+Lemma exec_ixs_tc t ixs : forall prev W W', exec_ixs t ixs prev W = Ok W' -> typed_canonical W -> typed_canonical W'.
+Proof.
+  induction ixs as [|i tl IH]; intros prev W W' H HT; cbn [exec_ixs] in H.
+  - injection H as <-. exact HT.
+  - apply bind_ok in H as (W1 & E & H). eapply IH; [exact H|]. eapply exec_data_tc; eassumption.
+Qed.
+
+Lemma get_purge W k : get (purge W) k = if lamports (get W k) =? 0 then empty_acct else get W k.
+Proof.
+  unfold get, purge. cbn. induction (accts W) as [|[k' a] tl IH]; cbn [map lookup].
+  - reflexivity.
+  - destruct (lamports a =? 0) eqn:El; cbn [lookup]; destruct (key_eqb k k'); try exact IH; rewrite ?El; reflexivity.
+Qed.
+Lemma purge_tc W : typed_canonical W -> typed_canonical (purge W).
+Proof.
+  intros HT k c. rewrite get_purge. destruct (lamports (get W k) =? 0); [rewrite canon_key_empty; discriminate|apply HT].
+Qed.
+
+(* Step: EVERY transaction (any instructions, any account lists) keeps the invariant *)
+Theorem exec_tx_tc W t W' ok : exec_tx W t = (W', ok) -> typed_canonical W -> typed_canonical W'.
+Proof.
+  unfold exec_tx. intros H HT. destruct (negb (tx_wf t)); [injection H as <- _; exact HT|].
+  destruct (exec_ixs t (tx_ixs t) None W) as [W1|e] eqn:E; [|injection H as <- _; exact HT].
+  destruct (rent_ok t W W1); injection H as <- _; [|exact HT].
+  apply purge_tc. eapply exec_ixs_tc; eassumption.
+Qed.
+Theorem typed_canonical_step W t W' ok : typed_canonical W -> exec_tx W t = (W', ok) -> typed_canonical W'.
+Proof. intros HT H. eapply exec_tx_tc; eassumption. Qed.
+
+(* ------------------------------------------------------------------------------------------------------------------ *)
+(* 7. histories of scenario operations; OForge (arbitrary set_account) is the only operation excluded                 *)
+
+Definition honest_op (o : op) : Prop := match o with OForge _ _ => False | _ => True end.
+Definition honest_opb (o : op) : bool := match o with OForge _ _ => false | _ => true end.
+Lemma honest_opb_spec o : honest_opb o = true <-> honest_op o.
+Proof. destruct o; cbn; intuition discriminate. Qed.
+
+Theorem exec_op_tc W o : honest_op o -> typed_canonical W -> typed_canonical (fst (exec_op W o)).
+Proof.
+  intros Ho HT. destruct o as [t|ts|k lam|k a|k amt|payer o_]; cbn [exec_op].
+  - destruct (exec_tx W t) as [W' ok] eqn:E. cbn [fst]. eapply exec_tx_tc; eassumption.
+  - exact HT.
+  - cbn [fst]. apply tc_put_same; [exact HT|reflexivity].
+  - destruct Ho.
+  - destruct (as_token W k) as [t|]; [|exact HT]. destruct (as_mint W KMint) as [m|]; [|exact HT]. cbn [fst].
+    apply tc_put_wr; [apply put_token_tc; exact HT|]. apply wr_ok_untyped. reflexivity.
+  - destruct (_ && _); [|exact HT]. cbn [fst]. apply tc_put.
+    + apply tc_put_same; [exact HT|reflexivity].
+    + intros c Hc. discriminate Hc.
+Qed.
+
+Definition run_ops (W : world) (ops : list op) : world := fold_left (fun W o => fst (exec_op W o)) ops W.
+Theorem typed_canonical_history ops : forall W,
+  Forall honest_op ops -> typed_canonical W -> typed_canonical (fold_left (fun W o => fst (exec_op W o)) ops W).
+Proof.
+  induction ops as [|o tl IH]; intros W Hf HT; cbn [fold_left]; [exact HT|].
+  inversion Hf as [|? ? Ho Htl]; subst. apply IH; [exact Htl|]. apply exec_op_tc; assumption.
+Qed.
+(* worlds reachable from the empty world *)
+Corollary typed_canonical_reachable ops :
+  Forall honest_op ops -> typed_canonical (fold_left (fun W o => fst (exec_op W o)) ops world0).
+Proof. intros Hf. apply typed_canonical_history; [exact Hf|exact typed_canonical_world0]. Qed.
+
+(* ------------------------------------------------------------------------------------------------------------------ *)
+(* 8. use-site corollaries (C09): in a world satisfying the invariant, the state accounts a successful processor     *)
+(*    accepted by owner + type tag ARE the canonical ones for the identity they carry                                 *)
+
+Ltac canon_key :=
+  first [ eapply rd_config_canonical | eapply rd_dist_canonical | eapply rd_journal_canonical
+        | eapply rd_deposit_canonical | eapply rd_contrib_canonical ]; eassumption.
+Ltac canon_fin := rg_norm; rg_exs; rg_splits; try eassumption; canon_key.
+
+Corollary rd_pay_debt_canonical cx W amount p W' :
+  rd_pay_debt cx W amount p = Ok W' -> typed_canonical W ->
+  exists m0 m1 m2 m3 rest c d tail dp j,
+    cx_metas cx = m0 :: m1 :: m2 :: m3 :: rest /\
+    rd_acct W (mkey m0) (DConfig c) /\ rd_acct W (mkey m1) (DDist d tail) /\
+    rd_acct W (mkey m2) (DDeposit dp) /\ rd_acct W (mkey m3) (DJournal j) /\
+    mkey m0 = KRdConfig /\ mkey m1 = KRdDist (d_epoch d) /\ mkey m2 = KRdDeposit (dp_node dp) /\ mkey m3 = KRdJournal.
+Proof. intros H HT. apply rd_pay_debt_guards in H. canon_fin. Qed.
+
+(* source distribution, deposit, and the distribution absorbing the loss *)
+Corollary rd_write_off_canonical cx W amount p W' :
+  rd_write_off cx W amount p = Ok W' -> typed_canonical W ->
+  exists m0 m1 m2 m3 m4 rest c d tail dp t ttail,
+    cx_metas cx = m0 :: m1 :: m2 :: m3 :: m4 :: rest /\
+    rd_acct W (mkey m0) (DConfig c) /\ rd_acct W (mkey m2) (DDist d tail) /\
+    rd_acct W (mkey m3) (DDeposit dp) /\ rd_acct W (mkey m4) (DDist t ttail) /\
+    mkey m0 = KRdConfig /\ mkey m2 = KRdDist (d_epoch d) /\ mkey m3 = KRdDeposit (dp_node dp) /\
+    mkey m4 = KRdDist (d_epoch t).
+Proof. intros H HT. apply rd_write_off_guards in H. canon_fin. Qed.
+
+Corollary rd_distribute_rewards_canonical cx W us ebr p W' :
+  rd_distribute_rewards cx W us ebr p = Ok W' -> typed_canonical W ->
+  exists m0 m1 m2 rest c d tail cr,
+    cx_metas cx = m0 :: m1 :: m2 :: rest /\
+    rd_acct W (mkey m0) (DConfig c) /\ rd_acct W (mkey m1) (DDist d tail) /\ rd_acct W (mkey m2) (DContrib cr) /\
+    mkey m0 = KRdConfig /\ mkey m1 = KRdDist (d_epoch d) /\ mkey m2 = KRdContrib (cr_service cr).
+Proof. intros H HT. apply rd_distribute_rewards_guards in H. canon_fin. Qed.
+
+Corollary rd_sweep_canonical cx W W' :
+  rd_sweep cx W = Ok W' -> typed_canonical W ->
+  exists m0 m1 m2 rest c d tail j,
+    cx_metas cx = m0 :: m1 :: m2 :: rest /\
+    rd_acct W (mkey m0) (DConfig c) /\ rd_acct W (mkey m1) (DDist d tail) /\ rd_acct W (mkey m2) (DJournal j) /\
+    mkey m0 = KRdConfig /\ mkey m1 = KRdDist (d_epoch d) /\ mkey m2 = KRdJournal.
+Proof. intros H HT. apply rd_sweep_guards in H. canon_fin. Qed.
+
+Corollary rd_withdraw_sol_canonical cx W amount W' :
+  rd_withdraw_sol cx W amount = Ok W' -> typed_canonical W ->
+  exists m0 m1 m2 rest c j,
+    cx_metas cx = m0 :: m1 :: m2 :: rest /\
+    rd_acct W (mkey m0) (DConfig c) /\ rd_acct W (mkey m2) (DJournal j) /\
+    mkey m0 = KRdConfig /\ mkey m2 = KRdJournal.
+Proof. intros H HT. apply rd_withdraw_sol_guards in H. canon_fin. Qed.
+
+Corollary rd_configure_debt_canonical cx W n debt root W' :
+  rd_configure_debt cx W n debt root = Ok W' -> typed_canonical W ->
+  exists m0 m1 m2 rest c d tail,
+    cx_metas cx = m0 :: m1 :: m2 :: rest /\
+    rd_acct W (mkey m0) (DConfig c) /\ rd_acct W (mkey m2) (DDist d tail) /\
+    mkey m0 = KRdConfig /\ mkey m2 = KRdDist (d_epoch d).
+Proof. intros H HT. apply rd_configure_debt_guards in H. canon_fin. Qed.
+Corollary rd_finalize_debt_canonical cx W W' :
+  rd_finalize_debt cx W = Ok W' -> typed_canonical W ->
+  exists m0 m1 m2 rest c d tail,
+    cx_metas cx = m0 :: m1 :: m2 :: rest /\
+    rd_acct W (mkey m0) (DConfig c) /\ rd_acct W (mkey m2) (DDist d tail) /\
+    mkey m0 = KRdConfig /\ mkey m2 = KRdDist (d_epoch d).
+Proof. intros H HT. apply rd_finalize_debt_guards in H. canon_fin. Qed.
+Corollary rd_configure_rewards_canonical cx W n root W' :
+  rd_configure_rewards cx W n root = Ok W' -> typed_canonical W ->
+  exists m0 m1 m2 rest c d tail,
+    cx_metas cx = m0 :: m1 :: m2 :: rest /\
+    rd_acct W (mkey m0) (DConfig c) /\ rd_acct W (mkey m2) (DDist d tail) /\
+    mkey m0 = KRdConfig /\ mkey m2 = KRdDist (d_epoch d).
+Proof. intros H HT. apply rd_configure_rewards_guards in H. canon_fin. Qed.
+Corollary rd_finalize_rewards_canonical cx W W' :
+  rd_finalize_rewards cx W = Ok W' -> typed_canonical W ->
+  exists m0 m1 rest c d tail,
+    cx_metas cx = m0 :: m1 :: rest /\
+    rd_acct W (mkey m0) (DConfig c) /\ rd_acct W (mkey m1) (DDist d tail) /\
+    mkey m0 = KRdConfig /\ mkey m1 = KRdDist (d_epoch d).
+Proof. intros H HT. apply rd_finalize_rewards_guards in H. canon_fin. Qed.
+Corollary rd_enable_write_off_canonical cx W W' :
+  rd_enable_write_off cx W = Ok W' -> typed_canonical W ->
+  exists m0 m1 rest c d tail,
+    cx_metas cx = m0 :: m1 :: rest /\
+    rd_acct W (mkey m0) (DConfig c) /\ rd_acct W (mkey m1) (DDist d tail) /\
+    mkey m0 = KRdConfig /\ mkey m1 = KRdDist (d_epoch d).
+Proof. intros H HT. apply rd_enable_write_off_guards in H. canon_fin. Qed.
+Corollary rd_verify_root_canonical cx W kind p W' :
+  rd_verify_root cx W kind p = Ok W' -> typed_canonical W ->
+  exists m0 rest d tail, cx_metas cx = m0 :: rest /\ rd_acct W (mkey m0) (DDist d tail) /\ mkey m0 = KRdDist (d_epoch d).
+Proof. intros H HT. apply rd_verify_root_guards in H. canon_fin. Qed.
+
+Corollary rd_set_rewards_manager_canonical cx W k W' :
+  rd_set_rewards_manager cx W k = Ok W' -> typed_canonical W ->
+  exists m0 m1 m2 rest c cr,
+    cx_metas cx = m0 :: m1 :: m2 :: rest /\
+    rd_acct W (mkey m0) (DConfig c) /\ rd_acct W (mkey m2) (DContrib cr) /\
+    mkey m0 = KRdConfig /\ mkey m2 = KRdContrib (cr_service cr).
+Proof. intros H HT. apply rd_set_rewards_manager_guards in H. canon_fin. Qed.
+Corollary rd_configure_contributor_canonical cx W s W' :
+  rd_configure_contributor cx W s = Ok W' -> typed_canonical W ->
+  exists m0 m1 rest c cr,
+    cx_metas cx = m0 :: m1 :: rest /\
+    rd_acct W (mkey m0) (DConfig c) /\ rd_acct W (mkey m1) (DContrib cr) /\
+    mkey m0 = KRdConfig /\ mkey m1 = KRdContrib (cr_service cr).
+Proof. intros H HT. apply rd_configure_contributor_guards in H. canon_fin. Qed.
+
+Corollary rd_set_admin_canonical cx W k W' :
+  rd_set_admin cx W k = Ok W' -> typed_canonical W ->
+  exists m0 m1 m2 rest c, cx_metas cx = m0 :: m1 :: m2 :: rest /\ rd_acct W (mkey m2) (DConfig c) /\ mkey m2 = KRdConfig.
+Proof. intros H HT. apply rd_set_admin_guards in H. canon_fin. Qed.
+Corollary rd_migrate_canonical cx W W' :
+  rd_migrate cx W = Ok W' -> typed_canonical W ->
+  exists m0 m1 m2 rest c, cx_metas cx = m0 :: m1 :: m2 :: rest /\ rd_acct W (mkey m2) (DConfig c) /\ mkey m2 = KRdConfig.
+Proof. intros H HT. apply rd_migrate_guards in H. canon_fin. Qed.
+Corollary rd_configure_program_canonical cx W s W' :
+  rd_configure_program cx W s = Ok W' -> typed_canonical W ->
+  exists m0 rest c, cx_metas cx = m0 :: rest /\ rd_acct W (mkey m0) (DConfig c) /\ mkey m0 = KRdConfig.
+Proof. intros H HT. apply rd_configure_program_guards in H. canon_fin. Qed.
+Corollary rd_initialize_swap_destination_canonical cx W W' :
+  rd_initialize_swap_destination cx W = Ok W' -> typed_canonical W ->
+  exists m0 rest c, cx_metas cx = m0 :: rest /\ rd_acct W (mkey m0) (DConfig c) /\ mkey m0 = KRdConfig.
+Proof. intros H HT. apply rd_initialize_swap_destination_guards in H. canon_fin. Qed.
+(* the new distribution is created at the address of the epoch it records; config and journal are the canonical ones *)
+Corollary rd_initialize_distribution_canonical cx W W' :
+  rd_initialize_distribution cx W = Ok W' -> typed_canonical W ->
+  exists m0 m1 m2 m3 m4 m5 m6 m7 rest c j,
+    cx_metas cx = m0 :: m1 :: m2 :: m3 :: m4 :: m5 :: m6 :: m7 :: rest /\
+    rd_acct W (mkey m0) (DConfig c) /\ rd_acct W (mkey m7) (DJournal j) /\
+    mkey m0 = KRdConfig /\ mkey m3 = KRdDist (c_next_epoch c) /\ mkey m7 = KRdJournal.
+Proof. intros H HT. apply rd_initialize_distribution_guards in H. rg_norm. rg_exs. rg_splits; try eassumption; canon_key. Qed.
+
+(* passport: configuration and access request *)
+Corollary pp_grant_access_canonical cx W W' :
+  pp_grant_access cx W = Ok W' -> typed_canonical W ->
+  exists m0 m1 m2 rest c r,
+    cx_metas cx = m0 :: m1 :: m2 :: rest /\
+    owner (get W (mkey m0)) = KPassport /\ data (get W (mkey m0)) = DPpConfig c /\
+    owner (get W (mkey m2)) = KPassport /\ data (get W (mkey m2)) = DAccessReq r /\
+    msigner m1 = true /\ mkey m1 = pc_sentinel c /\
+    mkey m0 = KPpConfig /\ mkey m2 = KPpRequest (ar_service r).
+Proof.
+  unfold pp_grant_access. intros H HT.
+  apply bind_ok in H as ([[[ck c] sentinel] ms] & E & H). cbv beta iota in H.
+  apply pp_verified_ok in E as (m0 & m1 & Hm & -> & -> & Hs & Ho & Hd & Hk).
+  apply bind_ok in H as (u & _ & H). apply bind_ok in H as ([[rk r] ms'] & E2 & _).
+  apply pp_zc_request_ok in E2 as (m2 & -> & -> & Ho2 & Hd2).
+  exists m0, m1, m2, ms', c, r. repeat split; auto.
+  - eapply pp_config_canonical; eassumption.
+  - eapply pp_request_canonical; eassumption.
+Qed.
+Corollary pp_deny_access_canonical cx W W' :
+  pp_deny_access cx W = Ok W' -> typed_canonical W ->
+  exists m0 m1 m2 rest c r,
+    cx_metas cx = m0 :: m1 :: m2 :: rest /\
+    owner (get W (mkey m0)) = KPassport /\ data (get W (mkey m0)) = DPpConfig c /\
+    owner (get W (mkey m2)) = KPassport /\ data (get W (mkey m2)) = DAccessReq r /\
+    msigner m1 = true /\ mkey m1 = pc_sentinel c /\
+    mkey m0 = KPpConfig /\ mkey m2 = KPpRequest (ar_service r).
+Proof.
+  unfold pp_deny_access. intros H HT.
+  apply bind_ok in H as ([[[ck c] sentinel] ms] & E & H). cbv beta iota in H.
+  apply pp_verified_ok in E as (m0 & m1 & Hm & -> & -> & Hs & Ho & Hd & Hk).
+  apply bind_ok in H as (u & _ & H). apply bind_ok in H as ([[rk r] ms'] & E2 & _).
+  apply pp_zc_request_ok in E2 as (m2 & -> & -> & Ho2 & Hd2).
+  exists m0, m1, m2, ms', c, r. repeat split; auto.
+  - eapply pp_config_canonical; eassumption.
+  - eapply pp_request_canonical; eassumption.
+Qed.
+
+(* ------------------------------------------------------------------------------------------------------------------ *)
+(* 9. reachable worlds, a decidable check for literal worlds, examples                                                *)
+
+(* reachable: from a fixture world holding no typed RD / passport account (mints, wallets, program-data accounts, ...)
+   by any history of operations other than OForge *)
+Definition untyped_world (W : world) : Prop :=
+  forall k, owner (get W k) = KRd \/ owner (get W k) = KPassport -> data (get W k) = DEmpty.
+Definition reachable (W : world) : Prop :=
+  exists W0 ops, untyped_world W0 /\ Forall honest_op ops /\ W = run_ops W0 ops.
+Theorem reachable_typed_canonical W : reachable W -> typed_canonical W.
+Proof.
+  intros (W0 & ops & H0 & Hf & ->). apply typed_canonical_history; [exact Hf|]. apply typed_canonical_untyped. exact H0.
+Qed.
+Lemma reachable_step W o : reachable W -> honest_op o -> reachable (fst (exec_op W o)).
+Proof.
+  intros (W0 & ops & H0 & Hf & ->) Ho. exists W0, (ops ++ [o]). split; [exact H0|]. split.
+  - apply Forall_app. split; [exact Hf|]. constructor; [exact Ho|constructor].
+  - unfold run_ops. rewrite fold_left_app. reflexivity.
+Qed.
+
+(* sufficient boolean check on the association list (the first binding of a key shadows later ones) *)
+Definition canon_entry_ok (ka : key * acct) : bool :=
+  match canon_key_of (snd ka) with Some c => key_eqb c (fst ka) | None => true end.
+Lemma typed_canonical_check W : forallb canon_entry_ok (accts W) = true -> typed_canonical W.
+Proof.
+  unfold typed_canonical, get. induction (accts W) as [|[k' a] tl IH]; cbn [forallb lookup]; intros H k c Hc.
+  - rewrite canon_key_empty in Hc. discriminate.
+  - apply andb_true_iff in H as (Ha & Htl). destruct (key_eqb k k') eqn:Ek.
+    + apply key_eqb_eq in Ek. subst k'. unfold canon_entry_ok in Ha. cbn [fst snd] in Ha. rewrite Hc in Ha.
+      apply key_eqb_eq. exact Ha.
+    + apply IH; assumption.
+Qed.
+Definition no_typed_entry (ka : key * acct) : bool :=
+  negb (key_eqb (owner (snd ka)) KRd || key_eqb (owner (snd ka)) KPassport).
+Lemma untyped_world_check W : forallb no_typed_entry (accts W) = true -> untyped_world W.
+Proof.
+  unfold untyped_world, get. induction (accts W) as [|[k' a] tl IH]; cbn [forallb lookup]; intros H k Ho.
+  - reflexivity.
+  - apply andb_true_iff in H as (Ha & Htl). destruct (key_eqb k k') eqn:Ek.
+    + exfalso. unfold no_typed_entry in Ha. cbn [snd] in Ha. destruct Ho as [Ho|Ho]; rewrite Ho in Ha; cbn in Ha; discriminate.
+    + apply IH; assumption.
+Qed.
+
+Module CanonEx.
+Definition ro k := mk k false false. Definition wr k := mk k false true.
+Definition sg k := mk k true false.  Definition sw k := mk k true true.
+Definition wallet (lam : N) : acct := {| lamports := lam; owner := KSystem; alen := 0; data := DEmpty |}.
+(* fixtures: a funded wallet, the 2Z mint, the two program-data accounts (upgrade authority KUser 9) *)
+Definition ex_fix : world := {| accts := [
+  (KUser 100, wallet 1000000000000);
+  (KMint, {| lamports := rent LEN_MINT; owner := KToken; alen := LEN_MINT;
+             data := DMint {| m_supply := 1000000; m_decimals := 8 |} |});
+  (KProgData KRd, {| lamports := 1; owner := KLoader; alen := 45; data := DProgData (Some (KUser 9)) |});
+  (KProgData KPassport, {| lamports := 1; owner := KLoader; alen := 45; data := DProgData (Some (KUser 9)) |})];
+  now := 0 |}.
+Definition rdi (d : rd_ix) (ms : list meta) : instr := {| i_prog := KRd; i_data := IxRd d; i_metas := ms |}.
+Definition ppi (d : pp_ix) (ms : list meta) : instr := {| i_prog := KPassport; i_data := IxPassport d; i_metas := ms |}.
+Definition otx (signers : list key) (ixs : list instr) : op := OTx {| tx_signers := signers; tx_ixs := ixs |}.
+Definition m_cfg := [wr KRdConfig; sg (KUser 1)].
+(* bootstrap both programs through real transactions: program config, journal, admin, settings, first distribution,
+   a contributor record, a validator deposit, an ATA, passport config and an access request *)
+Definition ex_ops : list op := [
+  otx [KUser 100] [rdi RInitializeProgram [sw (KUser 100); wr KRdConfig; wr (KTok2z KRdConfig); ro KMint; ro KToken; ro KSystem];
+                   rdi RInitializeJournal [sw (KUser 100); wr KRdJournal; wr (KTok2z KRdJournal); ro KMint; ro KToken; ro KSystem]];
+  otx [KUser 9] [rdi (RSetAdmin (KUser 1)) [ro (KProgData KRd); sg (KUser 9); wr KRdConfig]];
+  otx [KUser 1] [rdi (RConfigureProgram (RSDebtAccountant (KUser 2))) m_cfg;
+                 rdi (RConfigureProgram (RSContributorManager (KUser 4))) m_cfg;
+                 rdi (RConfigureProgram (RSFeeParams 100 0 0 0 0)) m_cfg;
+                 rdi (RConfigureProgram (RSCalcGrace 1)) m_cfg;
+                 rdi (RConfigureProgram (RSInitGrace 1)) m_cfg;
+                 rdi (RConfigureProgram (RSRelayLamports 10000)) m_cfg;
+                 rdi (RConfigureProgram (RSBurnRate 500000000 2 5 (Some 100000000))) m_cfg;
+                 rdi (RConfigureProgram (RSPaused false)) m_cfg];
+  OSetClock 100;
+  otx [KUser 2; KUser 100] [rdi RInitializeDistribution
+     [wr KRdConfig; sg (KUser 2); sw (KUser 100); wr (KRdDist 0); wr (KTok2z (KRdDist 0)); ro KMint; ro KToken;
+      wr KRdJournal; ro (KTok2z KRdJournal); ro (KAta KRdJournal KMint); ro KSystem]];
+  otx [KUser 100] [rdi (RInitializeContributor (KUser 60)) [sw (KUser 100); wr (KRdContrib (KUser 60)); ro KSystem];
+                   rdi (RInitializeDeposit (KUser 50)) [wr (KRdDeposit (KUser 50)); sw (KUser 100); ro KSystem]];
+  OAirdrop (KUser 50) 5;
+  OCreateAta (KUser 100) (KUser 70);
+  OMintTo (KAta (KUser 70) KMint) 77;
+  otx [KUser 100] [ppi PInitializeProgram [sw (KUser 100); wr KPpConfig; ro KSystem]];
+  otx [KUser 9] [ppi (PSetAdmin (KUser 1)) [ro (KProgData KPassport); sg (KUser 9); wr KPpConfig]];
+  otx [KUser 1] [ppi (PConfigureProgram (PSAccessRequestDeposit 1000000 1000)) [wr KPpConfig; sg (KUser 1)]];
+  otx [KUser 100] [ppi (PRequestAccess (AMValidator {| at_validator := KUser 30; at_service := KUser 31; at_sig := 7 |}))
+                       [ro KPpConfig; sw (KUser 100); wr (KPpRequest (KUser 31)); ro KSystem]]
+].
+Fixpoint all_ok (W : world) (ops : list op) : bool :=
+  match ops with [] => true | o :: tl => let '(W', ok) := exec_op W o in ok && all_ok W' tl end.
+Definition ex_W : world := run_ops ex_fix ex_ops.
+End CanonEx.
+Import CanonEx.
+
+Lemma ex_ops_honest : Forall honest_op ex_ops.
+Proof.
+  apply Forall_forall. intros o Ho. apply honest_opb_spec. revert o Ho. apply forallb_forall. vm_compute. reflexivity.
+Qed.
+Lemma ex_W_reachable : reachable ex_W.
+Proof.
+  exists ex_fix, ex_ops. split; [|split; [exact ex_ops_honest|reflexivity]].
+  apply untyped_world_check. vm_compute. reflexivity.
+Qed.
+(* a literal reachable world: every operation of the history succeeds, the world holds one account of each of the seven
+   typed kinds, each at its canonical address; the invariant follows from theorems 1 + 3 (and, independently, by computation) *)
+Example typed_canonical_nonvacuous :
+  all_ok ex_fix ex_ops = true /\ typed_canonical ex_W /\
+  canon_key_of (get ex_W KRdConfig) = Some KRdConfig /\
+  canon_key_of (get ex_W KRdJournal) = Some KRdJournal /\
+  canon_key_of (get ex_W (KRdDist 0)) = Some (KRdDist 0) /\
+  canon_key_of (get ex_W (KRdContrib (KUser 60))) = Some (KRdContrib (KUser 60)) /\
+  canon_key_of (get ex_W (KRdDeposit (KUser 50))) = Some (KRdDeposit (KUser 50)) /\
+  canon_key_of (get ex_W KPpConfig) = Some KPpConfig /\
+  canon_key_of (get ex_W (KPpRequest (KUser 31))) = Some (KPpRequest (KUser 31)).
+Proof.
+  split; [vm_compute; reflexivity|]. split; [exact (reachable_typed_canonical _ ex_W_reachable)|].
+  vm_compute. repeat split.
+Qed.
+Example typed_canonical_check_nonvacuous : forallb canon_entry_ok (accts ex_W) = true.
+Proof. vm_compute. reflexivity. Qed.
+
+(* a use-site corollary fires on it: ConfigureDebt against the reachable world succeeds, on the canonical accounts *)
+Example rd_configure_debt_canonical_nonvacuous :
+  let cx := {| cx_prog := KRd; cx_metas := [ro KRdConfig; sg (KUser 2); wr (KRdDist 0)]; cx_height := 1; cx_sibling := None |} in
+  is_ok (rd_configure_debt cx (ex_W <| now := 1000 |>) 2 1000 null_hash) = true.
+Proof. vm_compute. reflexivity. Qed.
+
+(* OForge (set_account) can plant a look-alike: a KRd-owned ProgramConfig at a wallet address.  That is why it is excluded. *)
+Definition ex_forged_acct : acct :=
+  {| lamports := rent LEN_CONFIG_ALLOC; owner := KRd; alen := LEN_CONFIG_ALLOC; data := DConfig rd_config_default |}.
+Theorem typed_canonical_forge_breaks :
+  typed_canonical world0 /\ ~ typed_canonical (fst (exec_op world0 (OForge (KUser 66) ex_forged_acct))).
+Proof.
+  split; [exact typed_canonical_world0|]. intros H. specialize (H (KUser 66) KRdConfig eq_refl). discriminate H.
+Qed.
+(* ... also on top of a reachable world, and the forged account then passes the owner + tag check of a use site *)
+Theorem typed_canonical_forge_breaks_use_site :
+  let W := fst (exec_op ex_W (OForge (KUser 66) (ex_forged_acct <| data := DConfig (rd_config_default <| c_admin := KUser 5 |>) |>))) in
+  ~ typed_canonical W /\
+  is_ok (rd_configure_program {| cx_prog := KRd; cx_metas := [wr (KUser 66); sg (KUser 5)]; cx_height := 1; cx_sibling := None |}
+           W (RSPaused false)) = true.
+Proof.
+  split; [|vm_compute; reflexivity]. intros H. specialize (H (KUser 66) KRdConfig). 
+  assert (Hc : KRdConfig = KUser 66) by (apply H; vm_compute; reflexivity). discriminate Hc.
+Qed.
+
+(* ==================================================================================================================
+   INDEX.   TC := typed_canonical.   `rd_acct W k d` := owner (get W k) = KRd /\ data (get W k) = d  (Lemmas_RdGuards).
+   definitions
+     canon_key_of a            canonical address named by the content of a typed KRd- / KPassport-owned account (else None)
+     typed_canonical W         forall k ck, canon_key_of (get W k) = Some ck -> ck = k
+     data_key d, wr_ok k d     owner-independent address of typed data; "d is untyped or names k"
+     honest_op o               every op but OForge;  honest_opb, honest_opb_spec (boolean form)
+     run_ops W ops             fold_left (fun W o => fst (exec_op W o)) ops W
+     untyped_world W           KRd- / KPassport-owned accounts all hold DEmpty;  reachable W := run_ops of honest ops from such a world
+   1 init
+     typed_canonical_world0    TC world0
+     typed_canonical_untyped   untyped_world W -> TC W
+     typed_canonical_init      both of the above
+   generic use-site lemmas (TC W ->)
+     rd_config_canonical / rd_journal_canonical / rd_dist_canonical / rd_deposit_canonical / rd_contrib_canonical
+                               rd_acct W k (D.. x) -> k = KRdConfig | KRdJournal | KRdDist (d_epoch d) | KRdDeposit (dp_node d) | KRdContrib (cr_service c)
+     rd_acct_canonical (= rd_acct_canonical_dist), rd_acct_canonical_{config,journal,deposit,contrib}
+                               same with separate  owner (get W k) = KRd -> data (get W k) = D.. x  premises
+     pp_config_canonical, pp_request_canonical      KPassport-owned DPpConfig -> KPpConfig; DAccessReq r -> KPpRequest (ar_service r)
+     rd_zc_{config,dist,journal,deposit,contrib}_canon, rd_verified_canon, pp_zc_config_canon, pp_zc_request_canon, pp_verified_canon
+                               a successful typed read in a TC world returns the canonical key
+     typed_canonical_at, canon_identity_stable      TC at one key; two TC worlds agree on the identity carried at an address
+   2 footprints:  <op> .. W .. = Ok W' -> TC W -> TC W'
+     primitives   credit_tc, debit_tc, set_lamports_to_zero_tc, resize_tc, write_data_tc (needs wr_ok k d), put_dist_tc (needs
+                  k = KRdDist (d_epoch d)), try_initialize_tc (wr_ok), sys_transfer(_core)_tc, sys_allocate_core_tc,
+                  sys_create_account_core_tc, create_account_tc, put_token_tc, tok_transfer(_core|_checked)_tc, tok_burn(_core)_tc,
+                  tok_init_account3_tc, create_token_account_tc, grow_and_fund_tc (needs dk = KRdDist (d_epoch d)),
+                  distribute_loop_tc, sw_dequeue_fills_tc, swap_dequeue_cpi_tc, withdraw_sol_cpi_tc
+     processors   rd_<name>_tc for all 22, rd_process_tc; pp_<name>_tc for all 6, pp_process_tc; sw_initialize_tc, sw_buy_sol_tc,
+                  sw_process_tc
+     step         exec_data_tc (any program id, any ixdata incl. top-level System / Token and rogue CPI / rogue buy), exec_ixs_tc,
+                  get_purge, purge_tc
+                  exec_tx_tc / typed_canonical_step     TC W -> exec_tx W t = (W', ok) -> TC W'      (every transaction)
+   3 histories
+     exec_op_tc                honest_op o -> TC W -> TC (fst (exec_op W o))
+     typed_canonical_history   Forall honest_op ops -> TC W -> TC (fold_left (fun W o => fst (exec_op W o)) ops W)
+     typed_canonical_reachable the same from world0;   reachable_typed_canonical  reachable W -> TC W;   reachable_step
+     typed_canonical_check     forallb canon_entry_ok (accts W) = true -> TC W   (decidable, for literal worlds)
+     untyped_world_check       forallb no_typed_entry (accts W) = true -> untyped_world W
+   4 use-site corollaries:  rd_<name> .. = Ok W' -> TC W -> exists metas / state, cx_metas cx = .. /\ rd_acct .. /\ canonical keys
+     rd_pay_debt_canonical                 m0 = KRdConfig, m1 = KRdDist (d_epoch d), m2 = KRdDeposit (dp_node dp), m3 = KRdJournal
+     rd_write_off_canonical                m0 config, m2 = KRdDist (d_epoch d), m3 = KRdDeposit (dp_node dp), m4 = KRdDist (d_epoch t)
+     rd_distribute_rewards_canonical       m0 config, m1 = KRdDist (d_epoch d), m2 = KRdContrib (cr_service cr)
+     rd_sweep_canonical                    m0 config, m1 = KRdDist (d_epoch d), m2 = KRdJournal
+     rd_withdraw_sol_canonical             m0 config, m2 = KRdJournal
+     rd_configure_debt_canonical / rd_finalize_debt_canonical / rd_configure_rewards_canonical       m0 config, m2 = KRdDist (d_epoch d)
+     rd_finalize_rewards_canonical / rd_enable_write_off_canonical                                   m0 config, m1 = KRdDist (d_epoch d)
+     rd_verify_root_canonical              m0 = KRdDist (d_epoch d)
+     rd_set_rewards_manager_canonical      m0 config, m2 = KRdContrib (cr_service cr)
+     rd_configure_contributor_canonical    m0 config, m1 = KRdContrib (cr_service cr)
+     rd_set_admin_canonical / rd_migrate_canonical (m2 config), rd_configure_program_canonical / rd_initialize_swap_destination_canonical (m0)
+     rd_initialize_distribution_canonical  m0 config, m3 = KRdDist (c_next_epoch c), m7 = KRdJournal
+     pp_grant_access_canonical / pp_deny_access_canonical   m0 = KPpConfig, m1 signer = pc_sentinel c, m2 = KPpRequest (ar_service r)
+   5 examples
+     typed_canonical_nonvacuous            literal history ex_ops from fixture ex_fix: all 13 ops succeed, TC ex_W (via 1 + 3), one
+                                           account of each of the 7 typed kinds at its canonical address
+     ex_ops_honest, ex_W_reachable, typed_canonical_check_nonvacuous, rd_configure_debt_canonical_nonvacuous
+     typed_canonical_forge_breaks          TC world0 /\ ~ TC (fst (exec_op world0 (OForge (KUser 66) look-alike config)))
+     typed_canonical_forge_breaks_use_site forged config on top of ex_W: ~ TC, and rd_configure_program accepts it
+   nothing refuted: no way was found (and none exists, by 2 + 3) to obtain a typed RD / passport account at a non-canonical
+   address without OForge.
+   ================================================================================================================== *)
